@@ -250,7 +250,7 @@ def rule_D10(body):
     return body, applied
 
 
-def rule_D12(body, scaffold=False):
+def rule_D12(body, scaffold=False, iter_method="iter", rule="D12"):
     """D12: `RECV.iter().fold(INIT, |acc, x| BODY)` is written as
     `{ let mut acc = INIT; for x in RECV.iter() { acc = BODY; } acc }` — the definition of Iterator::fold (std: `let mut accum = init;
     while let Some(x) = self.next() { accum = f(accum, x); } accum`).  RECV must be a plain field path, BODY (block or
@@ -258,7 +258,7 @@ def rule_D12(body, scaffold=False):
     applied = []
     while True:
         m = mask(body)
-        mm = re.search(r"([A-Za-z_][A-Za-z0-9_]*(?:\s*\.\s*[A-Za-z_0-9]+)*)\s*\.iter\(\)\s*\.fold\(", m)
+        mm = re.search(r"([A-Za-z_][A-Za-z0-9_]*(?:\s*\.\s*[A-Za-z_0-9]+)*)\s*\." + iter_method + r"\(\)\s*\.fold\(", m)
         if not mm:
             break
         call_open = mm.end() - 1
@@ -295,11 +295,47 @@ def rule_D12(body, scaffold=False):
                    f"forall|i_: int| 0 <= i_ < {it}.seq().len() ==> *(#[trigger] {it}.seq()[i_]) == {sq}[i_], /*INV:fold_{k}*/ "
                    f"{{ /*STEP:fold_{k}*/ {acc} = {cbody}; }} {acc} }})")
         else:
-            new = f"({{ let mut {acc} = {init}; for {var} in {recv}.iter() {{ {acc} = {cbody}; }} {acc} }})"
-        applied.append(("D12", re.sub(r"\s+", " ", body[mm.start():call_close + 1])[:160], re.sub(r"\s+", " ", new)[:200]))
+            new = f"({{ let mut {acc} = {init}; for {var} in {recv}.{iter_method}() {{ {acc} = {cbody}; }} {acc} }})"
+        applied.append((rule, re.sub(r"\s+", " ", body[mm.start():call_close + 1])[:160], re.sub(r"\s+", " ", new)[:200]))
         body = body[:mm.start()] + new + body[call_close + 1:]
     if not applied:
-        raise LostAnchor("rule D12: no `.iter().fold(init, |acc, x| ..)` found")
+        raise LostAnchor(f"rule {rule}: no `.{iter_method}().fold(init, |acc, x| ..)` found")
+    return body, applied
+
+
+def rule_D12m(body):
+    """D12m: D12 for `RECV.iter_mut().fold(INIT, |acc, x| BODY)`: `{ let mut acc = INIT; for x in RECV.iter_mut() { acc = BODY; } acc }`
+    (the definition of Iterator::fold; BODY may mutate through `x`, it is evaluated once per element in order either way)."""
+    return rule_D12(body, scaffold=False, iter_method="iter_mut", rule="D12m")
+
+
+def rule_D17(body):
+    """D17: `RECV.iter().enumerate().for_each(|(i, x)| { BODY })` is written as
+    `{ let mut i: usize = 0; for x in RECV.iter() { { BODY } i = i + 1; } }` — Iterator::for_each over Enumerate, whose definition is
+    a counter that starts at 0 and is incremented after each item.  RECV a plain path; BODY without return/break/continue/?
+    and without assignment to the counter; every occurrence, at least one."""
+    applied = []
+    while True:
+        m = mask(body)
+        mm = re.search(r"([A-Za-z_][A-Za-z0-9_]*(?:\s*\.\s*[A-Za-z_0-9]+)*)\s*\.iter\(\)\s*\.enumerate\(\)\s*\.for_each\(\s*\|\s*\(\s*([A-Za-z_][A-Za-z0-9_]*)\s*,\s*([A-Za-z_][A-Za-z0-9_]*)\s*\)\s*\|\s*\{", m)
+        if not mm:
+            break
+        open_brace = mm.end() - 1
+        close_brace = match_close(m, open_brace)
+        k = close_brace
+        while k < len(m) and m[k] in " \t\n":
+            k += 1
+        if k >= len(m) or m[k] != ")":
+            raise LostAnchor("rule D17: closure block of for_each is not directly followed by `)`")
+        blk = m[open_brace:close_brace]
+        recv, idx, var = re.sub(r"\s+", "", mm.group(1)), mm.group(2), mm.group(3)
+        if re.search(r"\breturn\b|\bbreak\b|\bcontinue\b|\?", blk) or re.search(r"\b" + idx + r"\s*(\+|-|\*)?=[^=]", blk):
+            raise LostAnchor("rule D17: for_each closure contains return/break/continue/? or assigns the counter")
+        new = f"{{ let mut {idx}: usize = 0; for {var} in {recv}.iter() {{ " + body[open_brace:close_brace] + f" {idx} = {idx} + 1; }} }}"
+        applied.append(("D17", re.sub(r"\s+", " ", body[mm.start():open_brace + 1])[:140] + " .. })", f"{{ let mut {idx}: usize = 0; for {var} in {recv}.iter() {{ {{ .. }} {idx} = {idx} + 1; }} }}"))
+        body = body[:mm.start()] + new + body[k + 1:]
+    if not applied:
+        raise LostAnchor("rule D17: no `.iter().enumerate().for_each(|(i, x)| { .. })` found")
     return body, applied
 
 
@@ -467,7 +503,7 @@ def rule_D4t(body):
     return pat.sub("range_from_element(", body), [("D4", "<Option<&SubtypeElements> as TryInto<PerVisibleRangeConstraints>>::try_into(", "range_from_element(")] * n
 
 
-RULES = {"D2": rule_D2, "D5": rule_D5, "D5c": rule_D5c, "D5m": rule_D5m, "D9": rule_D9, "D4t": rule_D4t, "D10": rule_D10, "D5b": rule_D5b, "D12": rule_D12, "D13": rule_D13, "D14": rule_D14, "D15": rule_D15, "D15s": rule_D15s, "D12s": rule_D12s}
+RULES = {"D2": rule_D2, "D5": rule_D5, "D5c": rule_D5c, "D5m": rule_D5m, "D9": rule_D9, "D4t": rule_D4t, "D10": rule_D10, "D5b": rule_D5b, "D12": rule_D12, "D13": rule_D13, "D14": rule_D14, "D15": rule_D15, "D15s": rule_D15s, "D12s": rule_D12s, "D12m": rule_D12m, "D17": rule_D17}
 
 
 class FnUnit:
